@@ -603,3 +603,24 @@ Proof.
 Qed.
 
 End Simple.
+
+(* ================================================================== erasure
+   The real machine that is extracted and compared with the real object is exactly the real component of the
+   instrumented machine the theorems talk about: the observers never influence it. *)
+Lemma trun_real : forall o n base sched,
+  ti_real (trun_at o n base sched) = fold_left (trstep n) sched (treal_init (N.modulo base W) (N.modulo base W)).
+Proof.
+  intros o n base sched. unfold trun_at.
+  assert (H : forall l s r, ti_real s = r -> ti_real (fold_left (tstep o n) l s) = fold_left (trstep n) l r).
+  { induction l as [|t l IH]; intros s r Hr; cbn; [exact Hr|]. apply IH. rewrite tstep_real, Hr. reflexivity. }
+  apply H. reflexivity.
+Qed.
+
+Lemma srun_real : forall o n sched,
+  si_real (srun o n sched) = fold_left (srstep n) sched sreal_init.
+Proof.
+  intros o n sched. unfold srun.
+  assert (H : forall l s r, si_real s = r -> si_real (fold_left (sstep o n) l s) = fold_left (srstep n) l r).
+  { induction l as [|t l IH]; intros s r Hr; cbn; [exact Hr|]. apply IH. rewrite sstep_real, Hr. reflexivity. }
+  apply H. reflexivity.
+Qed.
